@@ -356,9 +356,22 @@ def line_cases(lines, multi, chk, dist):
         d = dist.setdefault(fn, {})
         d[k] = d.get(k, 0) + 1
 
+    def plain(fn, f, shown, *args):
+        """A helper with a plain result type (no diagnostic of its own): any exception it raises is an internal error."""
+        oc = outcome(f, *args)
+        if oc[0] == "val":
+            return oc[1]
+        name = oc[1] if oc[0] == "other" else oc[0]
+        chk.report(f"internal-error:{name}:{oc[2] if oc[0] == 'other' else fn}", f"{fn}({shown!r}) raised {name}",
+                   {"kind": "line-function", "function": fn, "input": shown})
+        d = dist.setdefault(fn, {})
+        d["other:" + name] = d.get("other:" + name, 0) + 1
+        return None
+
     for s in lines:
-        r = RC.parse_tags(s)
-        add("parse_tags", s, f"(LTags {cs(s)} {pair(cs(r[0]), strs(r[1]))})", ("val", r))
+        r = plain("parse_tags", RC.parse_tags, s, s)
+        if r is not None:
+            add("parse_tags", s, f"(LTags {cs(s)} {pair(cs(r[0]), strs(r[1]))})", ("val", r))
         oc = outcome(RC.parse_content_line, s)
         add("parse_content_line", s, f"(LContent {cs(s)} {robs(oc, toks_term)})", oc)
         oc = outcome(RC.parse_choice_line, s, {})
@@ -368,28 +381,33 @@ def line_cases(lines, multi, chk, dist):
             add("parse_render_line", s, f"(LRender {coq_bool(ctx)} {cs(s)} {robs(oc, opt_term(tok_term))})", oc)
             oc = outcome(RD.parse_input_line, s, 1, [s]) if ctx else outcome(RD.parse_input_line, s)
             add("parse_input_line", s, f"(LInput {coq_bool(ctx)} {cs(s)} {robs(oc, opt_term(input_term))})", oc)
-        r = RC.extract_target_and_args(s)
-        add("extract_target_and_args", s, f"(LTarget {cs(s)} {pair(cs(r[0]), cs(r[1]))})", ("val", r))
-        r = RC.extract_passage_params(s)
-        add("extract_passage_params", s, f"(LHeaderParams {cs(s)} {pair(cs(r[0]), cs(r[1]))})", ("val", r))
+        r = plain("extract_target_and_args", RC.extract_target_and_args, s, s)
+        if r is not None:
+            add("extract_target_and_args", s, f"(LTarget {cs(s)} {pair(cs(r[0]), cs(r[1]))})", ("val", r))
+        r = plain("extract_passage_params", RC.extract_passage_params, s, s)
+        if r is not None:
+            add("extract_passage_params", s, f"(LHeaderParams {cs(s)} {pair(cs(r[0]), cs(r[1]))})", ("val", r))
         oc = outcome(RC.parse_passage_params, s, 0, [s], None, None)
         add("parse_passage_params", s, f"(LParams {cs(s)} {robs(oc, lambda v: coq_list(param_term(x) for x in v))})", oc)
-        r = RC._split_on_commas(s)
-        add("_split_on_commas", s, f"(LCommas {cs(s)} {strs(r)})", ("val", r))
+        r = plain("_split_on_commas", RC._split_on_commas, s, s)
+        if r is not None:
+            add("_split_on_commas", s, f"(LCommas {cs(s)} {strs(r)})", ("val", r))
         oc = outcome(RV.validate_choice_syntax, s, 0, [s])
         add("validate_choice_syntax", s, f"(LValChoice {cs(s)} {robs(oc, lambda v: 'tt')})", oc)
         oc = outcome(RV.validate_passage_name, s, 0, [s])
         add("validate_passage_name", s, f"(LValName {cs(s)} {robs(oc, lambda v: 'tt')})", oc)
         oc = outcome(RC.split_expressions_with_depth, s)
         add("split_expressions_with_depth", s, f"(LSplitExpr {cs(s)} {robs(oc, strs)})", oc)
-        r = RC.find_pipe_separator(s)
-        add("find_pipe_separator", s, f"(LPipe {cs(s)} {coq_opt(None if r < 0 else r, coq_nat)})", ("val", r))
+        r = plain("find_pipe_separator", RC.find_pipe_separator, s, s)
+        if r is not None:
+            add("find_pipe_separator", s, f"(LPipe {cs(s)} {coq_opt(None if r < 0 else r, coq_nat)})", ("val", r))
         oc = outcome(RC.parse_inline_conditional, s)
         add("parse_inline_conditional", s, f"(LInlineCond {cs(s)} {robs(oc, opt_term(tok_term))})", oc)
     for ls, start, init in multi:
-        r = RD.extract_multiline_expression(list(ls), start, init)
-        add("extract_multiline_expression", repr((ls, start, init)),
-            f"(LMulti {strs(ls)} {coq_nat(start)} {cs(init)} {pair(cs(r[0]), coq_nat(r[1]))})", ("val", r))
+        r = plain("extract_multiline_expression", RD.extract_multiline_expression, repr((ls, start, init)), list(ls), start, init)
+        if r is not None:
+            add("extract_multiline_expression", repr((ls, start, init)),
+                f"(LMulti {strs(ls)} {coq_nat(start)} {cs(init)} {pair(cs(r[0]), coq_nat(r[1]))})", ("val", r))
     return out
 
 
@@ -1089,6 +1107,33 @@ MALFORMED_ARGS = ["1 2", "(", ")", "1,,2", ",", "1, ", "x for x in y", "\"(\") +
                   "lambda: 0", "1; 2", "'", "{", "1, (2", "yield", " "]
 
 
+def bracket_statement_inputs(rng, n):
+    """Multi-line `~` statements whose continuation lines open and close brackets in every (also wrong) way: surplus
+    closers, mismatched kinds, closers before openers, brackets inside strings, comment lines and blank lines inside
+    the statement - at top level, in @if and @for bodies and in a join block.  The bracket tracker of
+    extract_multiline_expression is shared by the comment pre-pass and every statement handler."""
+    out = []
+    frags = ["1", "2,", "'a'", "x", "[", "]", "(", ")", "{", "}", "]]", "))", "}}", "[(", ")]", "([{", "}])", "'['", '"]"', "'(' ,",
+             "# note", "# ]", "", "  ", "1 // 2", "k: 1", "\\"]
+    hosts = [
+        ("top", "", lambda body: [":: S"] + body + ["after", "+ [Go] -> S"]),
+        ("if", "    ", lambda body: [":: S", "@if flag:"] + body + ["    text", "@endif", "+ [Go] -> S"]),
+        ("for", "    ", lambda body: [":: S", "@for i in xs:"] + body + ["    row", "@endfor", "+ [Go] -> S"]),
+        ("join", "    ", lambda body: [":: S", "+ [J] -> @join"] + body + ["@join", "tail", "+ [Go] -> S"]),
+    ]
+    for _ in range(n):
+        name, ind, wrap = rng.choice(hosts)
+        opener = rng.choice(["[", "(", "{", "[[", "([", "f(", "{'k': ["])
+        body = [ind + "~ v = " + opener]
+        for _ in range(rng.randint(1, 4)):
+            body.append(ind + rng.choice(["", "  ", "    "]) + " ".join(rng.choice(frags) for _ in range(rng.randint(1, 3))))
+        if rng.random() < 0.6:
+            closer = {"[": "]", "(": ")", "{": "}", "[[": "]]", "([": "])", "f(": ")", "{'k': [": "]}"}[opener]
+            body.append(ind + rng.choice([closer, closer + closer[-1], closer[:-1], closer[::-1]]))
+        out.append((f"bracket-statement:{name}", wrap(body), True))
+    return out
+
+
 def call_shapes(params):
     """[(shape name, argument text or None for 'no parentheses')] for a target with these parameters."""
     names = [n for n, _ in params]
@@ -1322,6 +1367,7 @@ def run(tier: str, seed: int) -> int:
         share = 1.0 if d <= 3 else (0.03 if quick else 0.2)
         inputs.append((fam, ls, rng.random() < share))
     inputs += call_matrix(rng, quick)
+    inputs += bracket_statement_inputs(rng, 150 if quick else 1500)
     for _ in range(n_gen_plain):
         inputs.append(("generated-plain", gen_story_lines(rng, blocks=False), True))
     for _ in range(n_gen_blocks):
